@@ -34,7 +34,7 @@ Definition enc_prim (p : prim) : wv :=
   match p with
   | PArith op => WL [WI 0; WI (binop_code op)] | PNeg => WL [WI 1] | PCast f => WL [WI 2; wtext f] | PStr => WL [WI 3]
   | PLen => WL [WI 4] | PAbs => WL [WI 5] | PMinMax => WL [WI 6] | PLookup x => WL [WI 7; wtext x]
-  | PCompare => WL [WI 8] | PTruth => WL [WI 9] end.
+  | PCompare => WL [WI 8] | PTruth => WL [WI 9] | PConcat => WL [WI 10] end.
 
 (* sub-expressions, for the float-exactness audit (harness support, not used by any theorem) *)
 Fixpoint subexprs (e : pexpr) : list pexpr :=
